@@ -2,9 +2,9 @@ from __future__ import annotations
 
 import typing as t
 
-from typelib.codecs import Codec, DecoderT, EncoderT, codec
+from typelib.codecs import Codec, DecoderT, EncoderT, carried_verbatim, codec
 from typelib.marshals import AbstractMarshaller, marshal, marshaller
-from typelib.py import compat, inspection, refs
+from typelib.py import compat, refs
 from typelib.unmarshals import AbstractUnmarshaller, unmarshal, unmarshaller
 
 __all__ = (
@@ -41,7 +41,7 @@ def encode(
     """
     marshalled = marshal(value=value, t=t)
     # Bytes-like types are already encoded: carry them as-is, like `codec()` does.
-    if inspection.isbytestype(value.__class__ if t is None else t):
+    if carried_verbatim(value.__class__ if t is None else t):
         return marshalled  # type: ignore[return-value]
     encoded = encoder(marshalled)
     return encoded
@@ -61,6 +61,6 @@ def decode(
         decoder: A callable that takes a bytes object and returns a Python value.
     """
     # Bytes-like types are carried as-is, like `codec()` does.
-    decoded = value if inspection.isbytestype(t) else decoder(value)
+    decoded = value if carried_verbatim(t) else decoder(value)
     unmarshalled = unmarshal(t=t, value=decoded)
     return unmarshalled
